@@ -706,6 +706,82 @@ fn main() {
         return;
     }
 
+    if mode == "threads" {
+        // Several threads of one process, each with its own segment, writer and client (the header's
+        // rule: one context per thread), all calling now() at the same time on different records.
+        // Whatever the threads share inside the library (caches, memos, statics) must not leak from
+        // one thread's record into another thread's answer.
+        clock::fixed::install();
+        clock::fixed::set_boot_offset(3_600_000_000_000);
+        clock::fixed::set_real_coarse_lag(3_000_000);
+        clock::fixed::set((1_700_000_000, 250_000_000), (5000, 0));
+        BLUR_NS.store(arg_u64(&args, "blur", 1000) as i64, std::sync::atomic::Ordering::Relaxed);
+        let nthreads = arg_u64(&args, "threads", 6);
+        let per_thread = count;
+        let results: std::sync::Arc<std::sync::Mutex<Vec<Value>>> = Default::default();
+        let calls = std::sync::Arc::new(std::sync::atomic::AtomicU64::new(0));
+        let mut handles = Vec::new();
+        for t in 0..nthreads {
+            let (results, calls, prop) = (results.clone(), calls.clone(), prop.clone());
+            handles.push(std::thread::spawn(move || {
+                clock::set_thread_virtual(true);
+                let dir = PathBuf::from(format!("/dev/shm/cbverif-threads.{}.{}", std::process::id(), t));
+                std::fs::create_dir_all(&dir).unwrap();
+                let path = dir.join("shm");
+                let mut writer = ShmWriter::new(&path).expect("ShmWriter::new");
+                writer.write(&ClockErrorBound::default());
+                let mut client = ClockBoundClient::new_with_path(path.to_str().unwrap()).expect("client");
+                let mut rng = Rng::new(seed ^ (t << 20) ^ 0x7E4D);
+                // a handful of records per thread, all answered "Ok" at the frozen instant, ages and bounds differing between threads
+                let vectors: Vec<Vector> = (0..5).map(|k| {
+                    let age_ns = rng.range(0, 900_000_000_000) as i128 + k as i128 * 1_000_003 + t as i128;
+                    let as_of = 5000i128 * NS - age_ns;
+                    Vector { as_of: ts(as_of), void_after: ts(as_of + 1000 * NS), bound: rng.range(1, 50_000_000) + 1000 * t as i64 + k as i64, drift: *rng.pick(&[1000u32, 50_000, 500_000, 123_456]), status: 1 + (k % 2) as i32,
+                             real: (1_700_000_000, 250_000_000), mono: (5000, 0), kind: "threads" }
+                }).collect();
+                let mut bad: Vec<Value> = Vec::new();
+                for n in 0..per_thread {
+                    let v = &vectors[(n % 5) as usize];
+                    writer.write(&ClockErrorBound::new(libc::timespec { tv_sec: v.as_of.0, tv_nsec: v.as_of.1 }, libc::timespec { tv_sec: v.void_after.0, tv_nsec: v.void_after.1 }, v.bound, v.drift, 0, status_of(v.status)));
+                    let o = match catch_unwind(AssertUnwindSafe(|| client.now())) {
+                        Ok(Ok(r)) => Outcome::Ok { earliest: (r.earliest.tv_sec(), r.earliest.tv_nsec()), latest: (r.latest.tv_sec(), r.latest.tv_nsec()), status: status_num(r.clock_status) },
+                        Ok(Err(e)) => Outcome::Err { kind: kind_name(&e.kind).to_string(), errno: e.errno.0, detail: e.detail.clone() },
+                        Err(_) => Outcome::Panic("panic".into()),
+                    };
+                    for (p, sig, text) in oracle(v, &o) {
+                        if (p == prop || prop == "C05") && bad.len() < 3 {
+                            bad.push(json!({"sig": format!("threads-{}", sig), "detail": format!("thread {} of {} (own segment, own client), call {}: {} [vector {}] answered {}", t, nthreads, n, text, v.line(), o.line()), "replay": ""}));
+                        }
+                    }
+                }
+                calls.fetch_add(per_thread, std::sync::atomic::Ordering::Relaxed);
+                drop(client);
+                drop(writer);
+                let _ = std::fs::remove_dir_all(&dir);
+                results.lock().unwrap().extend(bad);
+            }));
+        }
+        let mut panicked = 0;
+        for h in handles {
+            if h.join().is_err() {
+                panicked += 1;
+            }
+        }
+        let mut violations = results.lock().unwrap().clone();
+        if panicked > 0 {
+            violations.push(json!({"sig": "threads-panic", "detail": format!("{} client threads panicked", panicked), "replay": ""}));
+        }
+        violations.truncate(8);
+        let out = json!({"evaluations": calls.load(std::sync::atomic::Ordering::Relaxed), "threads": nthreads, "violations": violations});
+        let outp = arg_str(&args, "out", "");
+        if outp.is_empty() {
+            println!("{}", vworld::serde_json::to_string_pretty(&out).unwrap());
+        } else {
+            vworld::write_json(&outp, &out);
+        }
+        return;
+    }
+
     if mode == "contexts" {
         // What a context reads is the file at the path at the moment it was opened, through a
         // mapping of its own; neither other contexts of the process nor the way the open had to be
